@@ -102,6 +102,15 @@ def main():
     warnings.simplefilter('ignore')
     rec = Recorder(prop, tier, seed, shard, nshards)
     result = {}
+    cov = None
+    if os.environ.get('VERIF_COV'):
+        # developer aid: line/branch coverage of the generator under the workloads (finds constructs
+        # no workload produces); never part of a verdict
+        import coverage
+        repo = os.environ.get('VERIF_REPO', '/repo')
+        cov = coverage.Coverage(data_file=os.path.join(os.environ['VERIF_COV'], '.coverage.%s.%d' % (prop, shard)),
+                                source=[os.path.join(repo, 'sourcer')], branch=True)
+        cov.start()
 
     def body():
         nonlocal result
@@ -126,6 +135,9 @@ def main():
         t = threading.Thread(target=body)
         t.start()
         t.join()
+    if cov is not None:
+        cov.stop()
+        cov.save()
     with open(out, 'w') as f:
         json.dump(result, f, default=repr)
     sys.exit(0 if 'error' not in result else 3)
